@@ -485,4 +485,41 @@ example : RespOK { status := 201, headers := [(str "Location", [str "/x"]), (str
 example : (respChild true [] { status := 201, headers := [(str "X-One", [str "1"])], body := str "ok" }).headers ctKey = [jsonType] := by
   decide +kernel
 
+/-! ### the JSON-reply decision and the whole exchange -/
+
+/-- the JSON-reply decision looks at EVERY value of every header named Accept (any letter case): it holds exactly
+when some value of such a header contains "application/json" — on whichever header line it was sent -/
+theorem C41_json_reply_scans_all_values (hs : SMap (List Bytes)) :
+    acceptsJSONHeader hs = true ↔
+      ∃ kv ∈ hs, kv.1.map lower = str "accept" ∧ ∃ v ∈ kv.2, hasSub (str "application/json") v = true := by
+  simp only [acceptsJSONHeader, List.any_eq_true, Bool.and_eq_true, beq_iff_eq]
+  constructor
+  · rintro ⟨kv, hkv, ⟨_, hn⟩, hv⟩
+    exact ⟨kv, hkv, hn, hv⟩
+  · rintro ⟨kv, hkv, hn, hv⟩
+    refine ⟨kv, hkv, ⟨?_, hn⟩, hv⟩
+    simp only [nonSensitive, hn]
+    decide +kernel
+
+/-- "application/json" on a LATER Accept line (after `text/plain`, with q-values) decides a JSON reply on both sides;
+a first-line-only reading (`http.Header.Get`) would answer false -/
+theorem C41_json_reply_later_line :
+    let hs : SMap (List Bytes) := [(str "Accept", [str "text/plain;q=0.5", str "application/xml;q=0.4", str "application/json;q=0.9"])]
+    let s : Session := { id := 1, path := [0x2F], user := [], token := [], authenticated := false, admin := false,
+                         acceptsJSON := true, acceptsText := true, parameters := [], urlParts := [], permissions := [] }
+    let r : Request := { method := [0x47], url := [0x2F], query := [], headers := hs, body := [] }
+    (viewInproc s r).jsonReply = true ∧ (viewChild (wireReq (encodeReq s r))).jsonReply = true ∧
+    hasSub (str "application/json") (str "text/plain;q=0.5") = false ∧
+    acceptsJSONHeader [(str "Accept", [str "text/plain", str "text/html;q=0.8"])] = false ∧
+    acceptsJSONHeader [(str "accept", [str "a"]), (str "Cookie", [str "application/json"]), (str "ACCEPT", [str "b", str "application/json"])] = true := by
+  decide +kernel
+
+/-- MAIN (whole exchange): for every session and request in the request domain and every handler outcome in the
+response domain, the HTTP response produced through the child — with the JSON-reply decision taken BY THE CHILD from the
+headers it received over the wire — is the in-process response with the decision taken from the original request. -/
+theorem C41_exchange_survives (s : Session) (r : Request) (h : ReqOK s r) (realm : Bytes) (o : SvcOut) (ho : RespOK o) :
+    respChild (viewChild (wireReq (encodeReq s r))).jsonReply realm o = respInproc (viewInproc s r).jsonReply o := by
+  rw [C41_request_fields_survive s r h]
+  exact C41_response_fields_survive _ realm o ho
+
 end EgoVerif.C41
